@@ -55,9 +55,29 @@ Theorem C08_history_acknowledged_only_by_ack :
       nth_error (ds_outbox (final E D apps st evs1)) i = Some mi /\ (0 < m_sent mi)%N /\ m_acktime mi = 0%N /\ m_fcntup mi = fcnt f.
 Proof. exact acknowledged_only_by_ack_uplink. Qed.
 
+From Lospan Require Import Base.Outcome Spec.RefDevice Proof.AnswerProof Proof.DeliveryProof.
+(* "every accepted uplink without ACK causes it to be transmitted again": the reset (C08_reset_only_confirmed,
+   C08_retransmit_requeued) makes the unacknowledged confirmed message unsent, the oldest unsent is loaded
+   (C08_oldest_unsent_next), and - this theorem - what is loaded does leave, as exactly one downlink that a conformant
+   device reads as that message (confirmed, its port, its bytes), numbered with the stored downlink counter. *)
+Theorem C08_unacknowledged_message_leaves_again :
+  forall (E D : list N -> list N -> list N),
+    (forall k b, length (E k b) = 16%nat /\ bytes_ok (E k b) = true) ->
+    forall apps st f rx n now r m,
+      ds_row st = Some r -> fb_down st -> valid_datr rx -> sendable st -> stale r f = false ->
+      (forall x, In x (ds_inbox st) -> u_ts x <> rx_ts rx) -> has_app apps (d_appeui r) = true ->
+      (d_addr r < 4294967296)%N -> (d_fdn r < 65536)%N ->
+      l_get_next_unsent (booked st f now) = Some m -> m_data m <> [] ->
+      exists dl, downs (snd (l_uplink E D apps st f rx n now)) = [dl] /\ dl_eui dl = d_eui r /\
+        ref_on_downlink E (d_nwkskey r) (d_appskey r) (d_addr r) (dl_raw dl)
+        = Some ((if m_ack m then ConfirmedDataDown else UnconfirmedDataDown), ack_pending st f, d_fdn r, Some (m_port m),
+                chunk (r_datr (rx_radio rx)) (m_data m)).
+Proof. exact queued_message_is_transmitted. Qed.
+
 Print Assumptions C08_ack_only_after_transmission.
 Print Assumptions C08_reset_only_confirmed.
 Print Assumptions C08_retransmit_requeued.
 Print Assumptions C08_oldest_unsent_next.
 Print Assumptions C08_history_status.
 Print Assumptions C08_history_acknowledged_only_by_ack.
+Print Assumptions C08_unacknowledged_message_leaves_again.
